@@ -479,6 +479,96 @@ func main() {
 			}
 			emit("def %s : List String := %s\n", g, lstrsNL(lines))
 		}
+		// closure: every function in providers/*.go REACHABLE (by callee name) from a session-lifecycle method of any provider
+		// — the helpers behind Redeem / EnrichSession / RefreshSession / ValidateSession / CreateSessionFromToken / Authorize
+		{
+			type fn struct {
+				rel, name string
+				fd        *ast.FuncDecl
+			}
+			bySimple := map[string][]fn{}
+			var all []fn
+			for _, f := range files {
+				if strings.HasSuffix(f, "_test.go") {
+					continue
+				}
+				rel, _ := filepath.Rel(repo, f)
+				for n, fd := range funcs(parse(rel)) {
+					x := fn{rel, n, fd}
+					all = append(all, x)
+					simple := n
+					if i := strings.LastIndex(n, "."); i >= 0 {
+						simple = n[i+1:]
+					}
+					bySimple[simple] = append(bySimple[simple], x)
+				}
+			}
+			seen := map[string]bool{}
+			var queue []fn
+			push := func(x fn) {
+				k := x.rel + " " + x.name
+				if !seen[k] {
+					seen[k] = true
+					queue = append(queue, x)
+				}
+			}
+			for _, g := range gnames {
+				for _, m := range groups[g] {
+					for _, x := range bySimple[m] {
+						push(x)
+					}
+				}
+			}
+			for len(queue) > 0 {
+				x := queue[0]
+				queue = queue[1:]
+				if x.fd == nil || x.fd.Body == nil {
+					continue
+				}
+				ast.Inspect(x.fd.Body, func(n ast.Node) bool {
+					if c, ok := n.(*ast.CallExpr); ok {
+						name := calleeName(c)
+						if i := strings.LastIndex(name, "."); i >= 0 {
+							name = name[i+1:]
+						}
+						for _, y := range bySimple[name] {
+							push(y)
+						}
+					}
+					return true
+				})
+			}
+			var keys []string
+			for k := range seen {
+				keys = append(keys, k)
+			}
+			sort.Strings(keys)
+			allKeep := map[string]bool{}
+			perFile := map[string][]string{}
+			for _, k := range keys {
+				parts := strings.SplitN(k, " ", 2)
+				fd := funcs(parse(parts[0]))[parts[1]]
+				perFile[parts[0]] = append(perFile[parts[0]], "## "+parts[1])
+				// conditions and returns only (calls are named by the conditions / returns that use them)
+				perFile[parts[0]] = append(perFile[parts[0]], skeleton(fd, allKeep)...)
+			}
+			var fnames []string
+			for f := range perFile {
+				fnames = append(fnames, f)
+			}
+			sort.Strings(fnames)
+			for _, f := range fnames {
+				id := strings.NewReplacer("/", "_", ".", "_", "-", "_").Replace(strings.TrimSuffix(strings.TrimPrefix(f, "providers/"), ".go"))
+				emit("def providerReach_%s : List String := %s\n", id, lstrsNL(perFile[f]))
+			}
+			emit("def providerReachFiles : List String := %s\n", lstrsNL(fnames))
+		}
+		// the Redis client wrappers (standalone / sentinel and cluster)
+		for _, n := range []string{"client.Get", "client.Set", "client.Del", "client.Ping", "clusterClient.Get", "clusterClient.Set", "clusterClient.Del", "clusterClient.Ping"} {
+			fd := funcs(parse("pkg/sessions/redis/client.go"))[n]
+			rk := map[string]bool{"Get": true, "Set": true, "Del": true, "Ping": true, "Result": true, "Err": true, "Bytes": true}
+			emit("def skel_%s : List String := %s\n", strings.NewReplacer(".", "_").Replace(n), lstrsNL(skeleton(fd, rk)))
+		}
 		// PKCE / provider-data wiring
 		for _, s := range []sk{{"pkg/watcher/watcher.go", "WatchFileForUpdates"}, {"pkg/watcher/watcher.go", "filterEvent"}, {"pkg/watcher/watcher.go", "WaitForReplacement"}, {"oauthproxy.go", "NewOAuthProxy"}, {"providers/internal_util.go", "validateToken"}, {"providers/provider_default.go", "ProviderData.Redeem"}, {"providers/providers.go", "newProviderDataFromConfig"}, {"providers/providers.go", "parseCodeChallengeMethod"}, {"providers/provider_data.go", "ProviderData.LoginURLParams"},
 			{"providers/provider_default.go", "ProviderData.GetLoginURL"}, {"providers/oidc.go", "OIDCProvider.GetLoginURL"}, {"oauthproxy.go", "decodeState"}, {"oauthproxy.go", "encodeState"},
